@@ -4,121 +4,121 @@ PENDING = "not yet built in this round: see DESIGN.md §6 for the planned contra
 CLAIMS = {
     "C05": {
         "level": "Proof (all inputs, no bound on values) of the bound-normalisation contract: for every finite minimum/maximum/exclusive* presence pattern and value, the interval NormalizeBounds returns admits x iff x satisfies every stated bound (exclusive wins on a tie), per side, plus frame and result-shape posts.",
-        "note": "Covers pkg/mathutils.NormalizeBounds only in this entry's current form; emitted-guard meaning is added as the stage-2 contracts land.",
+        "note": "Functions under contract, obligation families, known findings and repaired defects for this property: DESIGN.md section 0 (row C05). The property quantifies over all schemas; what is decided are contracts on the functions that carry its boundary-sensitive logic, scenario contracts on arms of the recursive generator and flow/sweep obligations; the composition through the whole generator is argued in DESIGN.md, not machine-checked.",
         "technique": "contract-based deductive verification: VCs from go/ssa discharged by SMT (LRA)",
         "design_ref": "DESIGN.md §6 C05",
     },
     "C15": {
         "level": "Proof for all bound values (stated bound: |b| not strictly between 2^53 and 2^54) and all presence/kind patterns that the type chosen under --min-sized-ints represents every admitted integer, that a bound is dropped only when the type implies it and no surviving bound moves, that the type is the narrowest, and that the schema's own numbers are not modified (frame).",
-        "note": "Functions under contract: PrimitiveTypeFromJSONSchemaType (integer arm), getMinIntType, adjustForSignedBounds, adjustForUnsignedBounds, NormalizeBounds; calls between them use the callee's contract. One known finding (exclusive lower bound of exactly -2^63).",
+        "note": "Functions under contract, obligation families, known findings and repaired defects for this property: DESIGN.md section 0 (row C15). The property quantifies over all schemas; what is decided are contracts on the functions that carry its boundary-sensitive logic, scenario contracts on arms of the recursive generator and flow/sweep obligations; the composition through the whole generator is argued in DESIGN.md, not machine-checked.",
         "technique": "contract-based deductive verification: modular VCs from go/ssa discharged by SMT (LIRA)",
         "design_ref": "DESIGN.md §6 C15",
     },
     "C06": {
         "level": "Proof that the emitted string guards reject iff the value violates minLength/maxLength/pattern (characters; byte-length defect recorded as known finding), nil never checked, no panic.",
-        "note": "Leaf contracts only; see DESIGN.md §6 C06.",
+        "note": "Functions under contract, obligation families, known findings and repaired defects for this property: DESIGN.md section 0 (row C06). The property quantifies over all schemas; what is decided are contracts on the functions that carry its boundary-sensitive logic, scenario contracts on arms of the recursive generator and flow/sweep obligations; the composition through the whole generator is argued in DESIGN.md, not machine-checked.",
         "technique": "contract-based deductive verification: stage-1 symbolic execution of the emitter, stage-2 meaning of the emitted guards, SMT",
         "design_ref": "DESIGN.md §6 C06",
     },
     "C07": {
         "level": "Proof per nesting level (emitter depth bounded 1..4, labelled) that the emitted guards reject iff the level's array is non-nil and outside [minItems,maxItems]; indices are the loops' own variables.",
-        "note": "Leaf contracts only; see DESIGN.md §6 C07.",
+        "note": "Functions under contract, obligation families, known findings and repaired defects for this property: DESIGN.md section 0 (row C07). The property quantifies over all schemas; what is decided are contracts on the functions that carry its boundary-sensitive logic, scenario contracts on arms of the recursive generator and flow/sweep obligations; the composition through the whole generator is argued in DESIGN.md, not machine-checked.",
         "technique": "contract-based deductive verification: stage-1 symbolic execution of the emitter, stage-2 meaning of the emitted guards, SMT",
         "design_ref": "DESIGN.md §6 C07",
     },
     "C04": {
         "level": "Proof that the emitted required-guard rejects iff the raw map is non-nil and lacks the key; desc() flags place it before the typed decode.",
-        "note": "Leaf contracts only; see DESIGN.md §6 C04.",
+        "note": "Functions under contract, obligation families, known findings and repaired defects for this property: DESIGN.md section 0 (row C04). The property quantifies over all schemas; what is decided are contracts on the functions that carry its boundary-sensitive logic, scenario contracts on arms of the recursive generator and flow/sweep obligations; the composition through the whole generator is argued in DESIGN.md, not machine-checked.",
         "technique": "contract-based deductive verification: stage-1 symbolic execution of the emitter, stage-2 meaning of the emitted guards, SMT",
         "design_ref": "DESIGN.md §6 C04",
     },
     "C09": {
         "level": "Proof that the emitted default guard assigns iff the key is absent or null, never rejects, never panics.",
-        "note": "Leaf contracts only; see DESIGN.md §6 C09.",
+        "note": "Functions under contract, obligation families, known findings and repaired defects for this property: DESIGN.md section 0 (row C09). The property quantifies over all schemas; what is decided are contracts on the functions that carry its boundary-sensitive logic, scenario contracts on arms of the recursive generator and flow/sweep obligations; the composition through the whole generator is argued in DESIGN.md, not machine-checked.",
         "technique": "contract-based deductive verification: stage-1 symbolic execution of the emitter, stage-2 meaning of the emitted guards, SMT",
         "design_ref": "DESIGN.md §6 C09",
     },
     "C03": {
         "level": "Proof that the emitted null guard rejects iff the element is non-nil at the stated depth (0..4).",
-        "note": "Leaf contracts only; see DESIGN.md §6 C03.",
+        "note": "Functions under contract, obligation families, known findings and repaired defects for this property: DESIGN.md section 0 (row C03). The property quantifies over all schemas; what is decided are contracts on the functions that carry its boundary-sensitive logic, scenario contracts on arms of the recursive generator and flow/sweep obligations; the composition through the whole generator is argued in DESIGN.md, not machine-checked.",
         "technique": "contract-based deductive verification: stage-1 symbolic execution of the emitter, stage-2 meaning of the emitted guards, SMT",
         "design_ref": "DESIGN.md §6 C03",
     },
     "C11": {
         "level": "Proof (anyOf half; branch count 1..4) that the emitted block rejects iff every branch unmarshaler failed.",
-        "note": "Leaf contracts only; see DESIGN.md §6 C11.",
+        "note": "Functions under contract, obligation families, known findings and repaired defects for this property: DESIGN.md section 0 (row C11). The property quantifies over all schemas; what is decided are contracts on the functions that carry its boundary-sensitive logic, scenario contracts on arms of the recursive generator and flow/sweep obligations; the composition through the whole generator is argued in DESIGN.md, not machine-checked.",
         "technique": "contract-based deductive verification: stage-1 symbolic execution of the emitter, stage-2 meaning of the emitted guards, SMT",
         "design_ref": "DESIGN.md §6 C11",
     },
     "C19": {
         "level": "Proof that every validator fragment is panic-free under its nil-guards, never mentions the receiver, leaves indentation balanced.",
-        "note": "Leaf contracts only; see DESIGN.md §6 C19.",
+        "note": "Functions under contract, obligation families, known findings and repaired defects for this property: DESIGN.md section 0 (row C19). The property quantifies over all schemas; what is decided are contracts on the functions that carry its boundary-sensitive logic, scenario contracts on arms of the recursive generator and flow/sweep obligations; the composition through the whole generator is argued in DESIGN.md, not machine-checked.",
         "technique": "contract-based deductive verification: stage-1 symbolic execution of the emitter, stage-2 meaning of the emitted guards, SMT",
         "design_ref": "DESIGN.md §6 C19",
     },
     "C01": {
         "level": "Proof of necessary conditions: every emitted fragment parses; package use matches the import conditions stated in the contracts.",
-        "note": "Leaf contracts only; see DESIGN.md §6 C01.",
+        "note": "Functions under contract, obligation families, known findings and repaired defects for this property: DESIGN.md section 0 (row C01). The property quantifies over all schemas; what is decided are contracts on the functions that carry its boundary-sensitive logic, scenario contracts on arms of the recursive generator and flow/sweep obligations; the composition through the whole generator is argued in DESIGN.md, not machine-checked.",
         "technique": "contract-based deductive verification: stage-1 symbolic execution of the emitter, stage-2 meaning of the emitted guards, SMT",
         "design_ref": "DESIGN.md §6 C01",
     },
     "C02": {
         "level": "Proof of the no-over-rejection halves of the validator posts (spec(x) ==> not rejected) and of bound normalisation.",
-        "note": "Leaf contracts only; see DESIGN.md §6 C02.",
+        "note": "Functions under contract, obligation families, known findings and repaired defects for this property: DESIGN.md section 0 (row C02). The property quantifies over all schemas; what is decided are contracts on the functions that carry its boundary-sensitive logic, scenario contracts on arms of the recursive generator and flow/sweep obligations; the composition through the whole generator is argued in DESIGN.md, not machine-checked.",
         "technique": "contract-based deductive verification: stage-1 symbolic execution of the emitter, stage-2 meaning of the emitted guards, SMT",
         "design_ref": "DESIGN.md §6 C02",
     },
     "C17": {
         "level": "Relational proof: yamlFormatter.generate emits, path for path, the same text as jsonFormatter.generate modulo the method header and the decode call (abstract validators, at most 3); every validator's emitted text is independent of the format argument (anyOf: method name only); validators do not modify their own state when emitting (frame), so the second emission equals the first.",
-        "note": "Necessary condition only: equal guards over equal plain/raw give equal verdicts IF the two decoders produce the same plain/raw, which is an assumption about yaml.v3 vs encoding/json.",
+        "note": "Functions under contract, obligation families, known findings and repaired defects for this property: DESIGN.md section 0 (row C17). The property quantifies over all schemas; what is decided are contracts on the functions that carry its boundary-sensitive logic, scenario contracts on arms of the recursive generator and flow/sweep obligations; the composition through the whole generator is argued in DESIGN.md, not machine-checked.",
         "technique": "contract-based deductive verification: relational (twin) obligation over stage-1 symbolic execution of both emitters",
         "design_ref": "DESIGN.md §6 C17",
     },
     "C14": {
         "level": "Proof of the struct-field half: tags carry the exact property name for every configured tag, JSONName is the property name, the final base name (after an explicit identifier override) is the one recorded for de-duplication.",
-        "note": "Identifier synthesis itself is added as the rune-array contracts land.",
+        "note": "Functions under contract, obligation families, known findings and repaired defects for this property: DESIGN.md section 0 (row C14). The property quantifies over all schemas; what is decided are contracts on the functions that carry its boundary-sensitive logic, scenario contracts on arms of the recursive generator and flow/sweep obligations; the composition through the whole generator is argued in DESIGN.md, not machine-checked.",
         "technique": "contract-based deductive verification: VCs from go/ssa discharged by SMT",
         "design_ref": "DESIGN.md §6 C14",
     },
     "C18": {
         "level": "Proof, in abstract mode over go/ssa, that every error-returning call site of main, pkg/generator, pkg/schemas, pkg/codegen and internal/x/text propagates a non-nil error on every path (or reaches abort/os.Exit/panic), except the deliberate drops listed with a reason in the contract files; plus panic-freedom of listed helper functions under safety contracts (upperFirst total, lowerFirst under its precondition checked at its call site, stringSliceToStringMap).",
-        "note": "Termination and panics inside external decoders are not covered. One known finding (resolveRefs swallows resolveRef's error).",
+        "note": "Functions under contract, obligation families, known findings and repaired defects for this property: DESIGN.md section 0 (row C18). The property quantifies over all schemas; what is decided are contracts on the functions that carry its boundary-sensitive logic, scenario contracts on arms of the recursive generator and flow/sweep obligations; the composition through the whole generator is argued in DESIGN.md, not machine-checked.",
         "technique": "contract-based deductive verification: abstract-mode path obligations over go/ssa, safety obligations discharged by SMT, unit and end-to-end replay",
         "design_ref": "DESIGN.md §6 C18",
     },
     "C12": {
         "level": "Sweep obligation: the set of map iterations in the module's non-test code equals the set declared in the contract files, so a new map iteration is a failed obligation; for each declared site either a mechanical SSA proof (keys only collected then sort.Strings; or the body only writes entries keyed by the iteration key) or an argued invariant listed as an assumption.",
-        "note": "Order-freedom of the four `argued` sites rests on invariants (one output per file name; unique schema ids) that are not machine-checked; external libraries' own determinism is assumed.",
+        "note": "Functions under contract, obligation families, known findings and repaired defects for this property: DESIGN.md section 0 (row C12). The property quantifies over all schemas; what is decided are contracts on the functions that carry its boundary-sensitive logic, scenario contracts on arms of the recursive generator and flow/sweep obligations; the composition through the whole generator is argued in DESIGN.md, not machine-checked.",
         "technique": "contract-based deductive verification: sweep + pattern obligations over go/ssa (no solver needed)",
         "design_ref": "DESIGN.md §6 C12",
     },
     "C10": {
         "level": "Proof of the leaf contracts $ref resolution rests on: extractRefNames (both pointer prefixes, any letter case, file part, error for other fragments, panic-free for every text), getDeclByEqualSchema (a reused declaration is one of the name's candidates AND equal to the schema by the comparison used), cmputil.Opts (the comparison ignores only unexported fields, Ref and AnyOf), determineTypeName (type chosen for a referenced definition).",
-        "note": "Cycle handling, the decl caches and file-system resolution are glue/external and not covered; the loader cache keyed by the raw uri is a recorded finding.",
+        "note": "Functions under contract, obligation families, known findings and repaired defects for this property: DESIGN.md section 0 (row C10). The property quantifies over all schemas; what is decided are contracts on the functions that carry its boundary-sensitive logic, scenario contracts on arms of the recursive generator and flow/sweep obligations; the composition through the whole generator is argued in DESIGN.md, not machine-checked.",
         "technique": "contract-based deductive verification: VCs from go/ssa discharged by SMT; table/flow obligations decided on the SSA",
         "design_ref": "DESIGN.md §6 C10",
     },
     "C13": {
         "level": "Proof that #/$defs/ and #/definitions/ (any letter case) are treated alike by extractRefNames, and that the YAML key-fixing loops are order-free (keyed writes).",
-        "note": "Partial: the JSON/YAML decoders and the legacy-keyword fallbacks of Schema/Type.UnmarshalJSON (encoding/json is external) are not covered; byte-identity of outputs is not decided.",
+        "note": "Functions under contract, obligation families, known findings and repaired defects for this property: DESIGN.md section 0 (row C13). The property quantifies over all schemas; what is decided are contracts on the functions that carry its boundary-sensitive logic, scenario contracts on arms of the recursive generator and flow/sweep obligations; the composition through the whole generator is argued in DESIGN.md, not machine-checked.",
         "technique": "contract-based deductive verification: VCs from go/ssa discharged by SMT; table/flow obligations decided on the SSA",
         "design_ref": "DESIGN.md §6 C13",
     },
     "C16": {
         "level": "Proof on the SSA of main.go that every flag is registered with the documented name, variable, kind and default (plus a sweep: no undeclared flag) and that every generator.Config field is taken from its own flag variable; proof that New builds [json] ++ (ExtraImports ? [yaml] : []), that generateUnmarshaler adds nothing under OnlyModels and exactly the needed imports otherwise, that struct tags depend only on Tags and the property name, and that schema mappings are assembled per id (no state carried across iterations).",
-        "note": "Partial: 'same type declarations as a full run' over the whole generator is glue and not covered.",
+        "note": "Functions under contract, obligation families, known findings and repaired defects for this property: DESIGN.md section 0 (row C16). The property quantifies over all schemas; what is decided are contracts on the functions that carry its boundary-sensitive logic, scenario contracts on arms of the recursive generator and flow/sweep obligations; the composition through the whole generator is argued in DESIGN.md, not machine-checked.",
         "technique": "contract-based deductive verification: VCs from go/ssa discharged by SMT; table/flow obligations decided on the SSA",
         "design_ref": "DESIGN.md §6 C16",
     },
     "C08": {
         "level": "Proof that generateEnumType's carrier type is exactly the Go type of every value in the table it emits (so reflect.DeepEqual can succeed), that mixed/null lists are wrapped, that string enums get their constants, that an empty list is an error wherever the enum sits (generateEnumType, generateTypeInline, generateType arms), that --only-models adds no code, plus the format-string sweep (enum literals are arguments, never formats).",
-        "note": "Partial: reflect.DeepEqual, litter's rendering of the table and marshal-back are external and not covered.",
+        "note": "Functions under contract, obligation families, known findings and repaired defects for this property: DESIGN.md section 0 (row C08). The property quantifies over all schemas; what is decided are contracts on the functions that carry its boundary-sensitive logic, scenario contracts on arms of the recursive generator and flow/sweep obligations; the composition through the whole generator is argued in DESIGN.md, not machine-checked.",
         "technique": "contract-based deductive verification: VCs from go/ssa discharged by SMT; flow obligations decided on the SSA",
         "design_ref": "DESIGN.md §0 and §6 C08",
     },
     "C20": {
         "level": "Proof of the routing leaves: beginOutput (reuse only on same file AND same package; same file + other package is an error; otherwise a new output with exactly the requested names registered under the id; both map iteration orders) and findOutputFileForSchemaID (known id keeps its output; mapped id goes to its mapping; else defaults); newSchemaGenerator gives each document its own ref map; data-flow obligations in generateReferencedType; mapping assembly (stringSliceToStringMap, per-id mapping loop).",
-        "note": "Partial: exactly-once emission and cross-package qualification inside generateReferencedType are glue; concrete scenario outputs (at most 2 outputs, 2 mappings).",
+        "note": "Functions under contract, obligation families, known findings and repaired defects for this property: DESIGN.md section 0 (row C20). The property quantifies over all schemas; what is decided are contracts on the functions that carry its boundary-sensitive logic, scenario contracts on arms of the recursive generator and flow/sweep obligations; the composition through the whole generator is argued in DESIGN.md, not machine-checked.",
         "technique": "contract-based deductive verification: VCs from go/ssa discharged by SMT; flow obligations decided on the SSA",
         "design_ref": "DESIGN.md §0 and §6 C20",
     },
